@@ -211,6 +211,21 @@ try:
             for t, d in enumerate(dsts):
                 for b in compare(src, d, False, {})[:2]:
                     bad.append(f"round {r} after a mode-only change of {os.path.relpath(f, src)!r}: target {t}: {b}")
+            # same content, new mtime and mode (touch + chmod): the checksum matches, no content travels, but mtime and mode must follow
+            f2 = os.path.join(src, rnd.choice(files))
+            os.chmod(f2, rnd.choice([0o600, 0o750, 0o644]))
+            t2 = rnd.choice([1_600_000_000, 1_111_111_111.5])
+            os.utime(f2, (t2, t2))
+            rs4 = Rep(src)
+            for gw, d in zip(gws, dsts):
+                rs4.add_target(gw, d)
+            rs4.send()
+            n += 1
+            if os.path.getsize(f2) and os.path.relpath(f2, src).replace(os.sep, "/") in rs4.sent:
+                bad.append(f"round {r}: touching {os.path.relpath(f2, src)!r} without changing its content transferred the content again")
+            for t, d in enumerate(dsts):
+                for b in compare(src, d, False, {})[:2]:
+                    bad.append(f"round {r} after touch + chmod of {os.path.relpath(f2, src)!r} (content unchanged): target {t}: {b}")
         if len(bad) > 12:
             break
 finally:
